@@ -131,7 +131,8 @@ def run(chk):
             base = tc.replay(chk, name + ":simple-baseline", r, c, "sort", 2, "all", classify=False)
             base_sigs = {s.split(":", 1)[1] for s in base["by_sig"]}
         for kind in ("batchsort", "batchvisual"):
-            for ns, nv in (((2, 2),) if quick else ((1, 1), (2, 3), (4, 2))):
+            # (one voting thread serving several scenes of a batch: what a scene gets must not depend on which thread serves it)
+            for ns, nv in (((2, 2),) + (((3, 1),) if name == "batch-sim" else ()) if quick else ((1, 1), (2, 3), (4, 2))):
                 args = tc.vh_args(c, kind, ns, "all", voters=nv) + ["--delay-us", "300", "--seed", str(chk.seed)]
                 rep = vlib.run_vh(args, [r.out], stride=4 if (quick and r.generated > 30000) else 1)
                 rep["nontrivial"] = rep["counters"].get("nt_C06", 0)
